@@ -7,6 +7,7 @@ package main
 
 import (
 	"bufio"
+	"context"
 	"fmt"
 	"io"
 	"os"
@@ -563,6 +564,29 @@ func evRunImpl(cs evCase) evObs {
 	case <-time.After(evDeadline):
 		return giveUp("hang")
 	}
+}
+
+// evModelTimed runs request lines through the model driver with a deadline (shrink candidates can
+// multiply loop counts: fuel bounds the depth of an evaluation, not its total work). nil = gave up.
+func evModelTimed(c *lib.Ctx, lines []string, deadline time.Duration) []string {
+	ctx, cancel := context.WithTimeout(context.Background(), deadline)
+	defer cancel()
+	cmd := exec.CommandContext(ctx, c.ModelBin)
+	cmd.Stdin = strings.NewReader(strings.Join(lines, "\n") + "\n")
+	out, err := cmd.Output()
+	if err != nil {
+		return nil
+	}
+	res := strings.Split(strings.TrimRight(string(out), "\n"), "\n")
+	if len(res) != len(lines) {
+		return nil
+	}
+	for _, r := range res {
+		if strings.HasPrefix(r, "bad-request") {
+			return nil
+		}
+	}
+	return res
 }
 
 // ---------------------------------------------------------------------------------------------
